@@ -31,7 +31,8 @@ def configs(draw, tier):
                           families=("gauss", "float", "smallint"), rank_families=("rank1", "uniform", "ragged")))
     y0 = draw(st.sampled_from(["rand", "gauss"]))
     case = {"T": T, "y0": y0, "y0seed": draw(st.integers(0, 10 ** 6)), "r0": draw(st.integers(1, 3)),
-            "dr_min": draw(st.integers(0, 2)), "nswp": draw(st.integers(1, 2 if tier == "quick" else 3)), "cache": draw(st.booleans())}
+            "dr_min": draw(st.integers(0, 2)), "nswp": draw(st.integers(1, 2 if tier == "quick" else 3)), "cache": draw(st.booleans()),
+            "tscale10": draw(st.sampled_from([0, 0, 0, 0, -170, -250, 100, 12]))}
     case["dr_max"] = draw(st.integers(case["dr_min"], 2))
     if y0 == "gauss":
         case["Y0"] = draw(gen.tt_specs(shape=T["n"], r_max=3, families=("gauss",), rank_families=("rank1", "uniform", "ragged", "over_ranked")))
@@ -46,13 +47,13 @@ def prop_config(case, ctx):
     T = gen.build_tt(case["T"])
     n = case["T"]["n"]
     d = len(n)
-    F = dense(T)
+    F = dense(T) * 10.0 ** case.get("tscale10", 0)      # objective values of any magnitude (1e-250 .. 1e100)
     if case["y0"] == "rand":
         Y0 = ctx.lib(teneva.rand, n, case["r0"], seed=case["y0seed"])
     else:
         Y0 = gen.build_tt(case["Y0"])
     dr_min, dr_max, nswp, use_cache = case["dr_min"], case["dr_max"], case["nswp"], case["cache"]
-    ctx.label(f"d={d}", "cache" if use_cache else "nocache", f"dr={dr_min}/{dr_max}", f"nswp={nswp}")
+    ctx.label(f"d={d}", "cache" if use_cache else "nocache", f"dr={dr_min}/{dr_max}", f"nswp={nswp}", f"scale=1e{case.get('tscale10', 0)}")
     kw = dict(dr_min=dr_min, dr_max=dr_max, m_cache_scale=1e9)
 
     # the caller may keep ONE info dictionary and hand it to every call (the docs only say it "will be filled"): each call
